@@ -66,5 +66,5 @@ def C12_feature(case, params):
         if not any(t.startswith(params["tag"]) and known(t) for c in cards for t in G.features(c["shape"])):
             return False
         cleaned = [dict(c, shape=clean(c["shape"])) for c in cards]
-        return C12.oracle_file(G.problem_text(cleaned, None, crlf=case.get("crlf", False))) is None
+        return C12.oracle_file(G.problem_text(cleaned, None, crlf=case.get("crlf", False)), case.get("version")) is None
     return _sentence_matches(case, params)
